@@ -306,7 +306,16 @@ fn c20_serde_malformed(ctx: &mut Ctx) {
                 ("duplicate lo (before hi)", de_map(vec![("lo", l), ("lo", l2), ("hi", h)]).map_err(|e| e.to_string()))
             }
         }
-        4 => ("unknown field", de_map(vec![("hi", h), ("lo", l), ("mid", 0.0)]).map_err(|e| e.to_string())),
+        4 => {
+            // names that are not exactly "hi" / "lo": other words, other case, padded, truncated
+            const NAMES: [&str; 16] = ["mid", "HI", "Hi", "hI", "LO", "Lo", "lO", "hi ", " lo", "h", "l", "high", "low", "hi\0", "hilo", ""];
+            let nm = NAMES[ctx.below(16) as usize];
+            match ctx.below(3) {
+                0 => ("unknown field (third entry)", de_map(vec![("hi", h), ("lo", l), (nm, h2)]).map_err(|e| e.to_string())),
+                1 => ("unknown field in place of hi", de_map(vec![(nm, h), ("lo", l)]).map_err(|e| e.to_string())),
+                _ => ("unknown field in place of lo", de_map(vec![("hi", h), (nm, l)]).map_err(|e| e.to_string())),
+            }
+        }
         5 => ("one-element sequence", de_seq_n(vec![h]).map_err(|e| e.to_string())),
         6 => ("empty sequence", de_seq_n(vec![]).map_err(|e| e.to_string())),
         7 => ("JSON duplicate field", serde_json::from_str::<TwoFloat>(&format!("{{\"hi\":{:e},\"lo\":{:e},\"lo\":{:e}}}", x.hi, x.lo, x.lo)).map_err(|e| e.to_string())),
